@@ -103,7 +103,13 @@ def eval_comp(ex: Exec, node) -> SV:
         with Bound(ex):
             _bind_target(ex, gen.target, ex.typed_nopc(x, it.elem_ty))
             body = ex.eval(node.elt)
-        res = z3.SeqMap(z3.Lambda([x], body.t), it.seq)
+        from . import lift
+
+        res, axioms = lift.map_term(ex, x, body.t, it.seq)
+        if getattr(ex, "bound_depth", 0) == 0:
+            for a in axioms:
+                ex.assume(a)
+        ex.note_assumption("comprehension over a sequence: |map(S)| = |S| and map(S)[j] = elt(S[j]) (definition of map)")
         ety = body.ty
     elif not gen.ifs:
         res = ex.fresh("comp", S.SEQV)
